@@ -7,10 +7,11 @@ Import ListNotations.
 Local Open Scope string_scope.
 Local Open Scope list_scope.
 
-Inductive initk := IInt | IList | ITuple | IStr | IDict (od : bool).
+(* IStrOf s: an init callable returning a NON-EMPTY string (the accumulator is a start value, never a separator) *)
+Inductive initk := IInt | IList | ITuple | IStr | IDict (od : bool) | IStrOf (s : string).
 Definition init_val (k : initk) : val :=
   match k with
-  | IInt => VInt 0 | IList => VList 0 [] | ITuple => VTuple 0 [] | IStr => VStr "" | IDict od => VDict 0 od [] end.
+  | IInt => VInt 0 | IList => VList 0 [] | ITuple => VTuple 0 [] | IStr => VStr "" | IDict od => VDict 0 od [] | IStrOf s => VStr s end.
 
 Inductive foldop := OIadd | OAdd | OMul | OCount | OUpdate | OLast.
 
